@@ -276,6 +276,15 @@ class Mesh:
             },
         )
 
+    def _shortest_edge(self) -> float:
+        if self.dim() == 3:
+            ed = self.edges
+        elif self.dim() == 2:
+            ed = self.facets
+        else:
+            ed = self.t
+        return np.min(np.linalg.norm(np.diff(self.p[:, ed], axis=1), axis=0))
+
     def _build_default_tags(self):
 
         boundaries = {}
@@ -284,14 +293,7 @@ class Mesh:
         maxnames = ['right', 'top', 'back']
         # a hundredth of the shortest edge (the longest edge of a cell says
         # nothing about the short side of an anisotropic one)
-        if self.dim() == 3:
-            ed = self.edges
-        elif self.dim() == 2:
-            ed = self.facets
-        else:
-            ed = self.t
-        atol = np.min(np.linalg.norm(np.diff(self.p[:, ed], axis=1),
-                                     axis=0)) / 1e2
+        atol = self._shortest_edge() / 1e2
         for d in range(self.doflocs.shape[0]):
             dmin = np.min(self.doflocs[d])
             ix = self.facets_satisfying(lambda x: np.isclose(x[d],
@@ -1333,9 +1335,12 @@ class Mesh:
 
         """
         if isinstance(nodes, tuple):
+            # the vertex at the given point, up to a millionth of the shortest
+            # edge (an absolute tolerance depends on the unit of length)
+            tol = 1e-6 * self._shortest_edge()
             return self.normalize_nodes(
                 lambda x: np.linalg.norm(x - np.array(list(nodes))[:, None],
-                                         axis=0) < 1e-12
+                                         axis=0) < tol
             )
         if isinstance(nodes, (int, np.integer)):
             return np.array([nodes])
